@@ -801,6 +801,46 @@ dir-contents input : matches -full
                 }
     }
 '''},
+    # one matcher OBJECT applied to several directories in turn (state must not be carried from one application to the
+    # next): only directory c holds both f and g
+    {'name': 'one-matcher-many-dirs', 'expect': 'PASS',
+     'act': {'top': ('d',), 'top/a': ('d',), 'top/a/f': ('f', ''), 'top/b': ('d',), 'top/b/g': ('f', ''),
+             'top/c': ('d',), 'top/c/f': ('f', ''), 'top/c/g': ('f', ''), 'top/e': ('d',)},
+     'text': '''[setup]
+dir top = {
+    dir a = { file f }
+    dir b = { file g }
+    dir c = {
+        file f
+        file g
+    }
+    dir e
+}
+def file-matcher HAS_BOTH = dir-contents matches { f
+                                                   g }
+[assert]
+dir-contents top : ! every file : dir-contents matches { f
+                                                         g }
+dir-contents top : any file : dir-contents matches { f
+                                                     g }
+dir-contents top : -selection dir-contents matches { f
+                                                     g } num-files == 1
+dir-contents top : -selection dir-contents matches { f } num-files == 2
+dir-contents top : -selection dir-contents matches { g } num-files == 2
+dir-contents top : -selection dir-contents matches -full { f } num-files == 1
+dir-contents top : -selection dir-contents matches -full { f
+                                                           g } num-files == 1
+dir-contents top : -selection HAS_BOTH num-files == 1
+dir-contents top : -selection HAS_BOTH num-files == 1
+dir-contents top : every file : dir-contents ! matches { f
+                                                         g
+                                                         h }
+dir-contents top : -selection dir-contents is-empty num-files == 1
+dir-contents top : -selection ( dir-contents matches { f } && dir-contents matches { g } ) num-files == 1
+dir-contents top : -selection ( dir-contents matches { f } || dir-contents matches { g } ) num-files == 3
+dir-contents top : -selection dir-contents num-files == 1 num-files == 2
+dir-contents top : -selection dir-contents any file : name f num-files == 2
+'''},
     {'name': 'bad-copy-source-missing', 'expect': 'REJECT', 'act': None,
      'text': '[setup]\ndir d = dir-contents-of -rel-home no-such-dir\n'},
     {'name': 'bad-copy-source-is-file', 'expect': 'REJECT', 'act': None,
